@@ -32,7 +32,9 @@ func TestBasics(t *testing.T) {
 		{"POST / HTTP/1.1\r\nHost: x\r\nTransfer-Encoding: gzip\r\n\r\n", FTENotChunkedFinal},
 		{"POST / HTTP/1.1\r\nHost: x\r\nTransfer-Encoding: identity\r\n\r\n", FTEIdentity},
 		{"POST / HTTP/1.1\r\nHost: x\r\nTransfer-Encoding: chunked\r\n\r\n3\r\nabcX\r\n0\r\n\r\n", FBadChunk},
-		{"POST / HTTP/1.1\r\nHost: x\r\nTransfer-Encoding: chunked\r\n\r\n3 \r\nabc\r\n0\r\n\r\n", FBadChunk},
+		{"POST / HTTP/1.1\r\nHost: x\r\nTransfer-Encoding: chunked\r\n\r\n3 \r\nabc\r\n0\r\n\r\n", FChunkSizeWS},
+		{"POST / HTTP/1.1\r\nHost: x\r\nTransfer-Encoding: chunked\r\n\r\n3 ;a\r\nabc\r\n0\r\n\r\n", FChunkExt},
+		{"POST / HTTP/1.1\r\nHost: x\r\nTransfer-Encoding: chunked\r\n\r\n3;\r\nabc\r\n0\r\n\r\n", FBadChunk},
 		{"POST / HTTP/1.1\r\nHost: x\r\nTransfer-Encoding: chunked\r\n\r\n3\nabc\r\n0\r\n\r\n", FChunkBareLF},
 		{"GET / HTTP/1.1\r\nHost : x\r\n\r\n", FWSBeforeColon},
 		{"GET / HTTP/1.1\r\nHost: x\r\nA: b\r\n c\r\n\r\n", FObsFold},
